@@ -10,6 +10,8 @@ separated by `:` (an empty last field = argument not given):
   create:N:s:V | create:N:l:V,V,…    update:…   setitem:…    remove:N    setobs:N:I:V
   addaf:N:const:V | addaf:N:affine:K:C | addaf:N:nextx | addaf:N:feat:SRC:K
   uvoid:int|dif:IN:OUT   bvoid:add|sub|mul:IN1:IN2:OUT   svoid:add|sub|rsub|mul:IN:V:OUT   sum:IN
+  opq:COLS:CELLS:OUT:V,V,…   (operator with opaque values: column reads, cell reads, output, values written)
+  rev:IN:OUT   probe:COLS:CELLS   (non-void operator: reads only)
   expr:tok,tok,…   (RPN of the expression)
 Reply: one block per op, blocks separated by a space:
   outcome~ret~names~columns~rowlens~xs~ys~zs~ts
@@ -95,6 +97,16 @@ def op? (tok : String) : Option (Op Float) :=
              else if k == "rsub" then some SOp.revSubstracter else if k == "mul" then some SOp.multiplier else none)
     some (.scalarVoid k (← name? inp) (← float? v) (← optName? out))
   | ["sum", inp] => do some (.sum (← name? inp))
+  | ["opq", cols, cells, out, vals] => do
+    let cs := splitTok cols ','
+    let ce := splitTok cells ','
+    if cs.any String.isEmpty || ce.any String.isEmpty then none
+    else some (.opaqueVoid cs ce (← name? out) (← floatList? vals))
+  | ["rev", inp, out] => do some (.reverser (← name? inp) (← optName? out))
+  | ["probe", cols, cells] =>
+    let cs := splitTok cols ','
+    let ce := splitTok cells ','
+    if cs.any String.isEmpty || ce.any String.isEmpty then none else some (.probe cs ce)
   | ["expr", toks] =>
     let l := splitTok toks ','
     if l.isEmpty || l.any String.isEmpty then none else some (.expr l)
